@@ -750,9 +750,9 @@ class MaskBits:
 class Path:
     def __init__(s, **kw): s.__dict__.update(kw)
 
-def explore(world, fn, max_paths=512, decisions0=None):
-    """run fn(it) on every feasible path; world.reset() before each"""
-    out = []; work = [list(decisions0 or [])]
+def explore(world, fn, max_paths=512, decisions0=None, partial=False):
+    """run fn(it) on every feasible path; world.reset() before each.  partial=True: stop quietly at max_paths and set world.explore_incomplete"""
+    out = []; work = [list(decisions0 or [])]; world.explore_incomplete = False
     while work:
         dec = work.pop()
         world.reset(); it = Interp(world, dec)
@@ -762,5 +762,7 @@ def explore(world, fn, max_paths=512, decisions0=None):
         except Terminated as e: status = 'terminated'; res = e
         out.append(Path(pc=list(it.pc), decisions=list(it.decisions), status=status, result=res, events=list(world.events), it=it))
         work += it.worklist
-        if len(out) > max_paths: raise Unsupported('more than %d paths' % max_paths)
+        if len(out) >= max_paths and work:
+            if partial: world.explore_incomplete = True; break
+            raise Unsupported('more than %d paths' % max_paths)
     return out
